@@ -4,6 +4,7 @@ import (
 	"bytes"
 	"encoding/json"
 	"fmt"
+	"reflect"
 	"strings"
 )
 
@@ -192,6 +193,40 @@ func builtinJSONStringify(call FunctionCall) Value {
 	return stringValue(string(valueJSON))
 }
 
+// bridgedGoIdentity is the address a bridged Go pointer-to-struct, map or slice
+// refers to. Every access creates a fresh wrapper object for such a value, so
+// object identity cannot reveal a cycle in the Go data.
+func bridgedGoIdentity(obj *object) (uintptr, bool) {
+	if obj == nil {
+		return 0, false
+	}
+	var value reflect.Value
+	switch goObj := obj.value.(type) {
+	case *goStructObject:
+		value = goObj.value
+	case *goMapObject:
+		value = goObj.value
+	case *goSliceObject:
+		value = goObj.value
+	default:
+		return 0, false
+	}
+	switch value.Kind() {
+	case reflect.Ptr, reflect.Map, reflect.Slice:
+		if value.IsNil() {
+			return 0, false
+		}
+		return value.Pointer(), true
+	}
+	return 0, false
+}
+
+func sameBridgedGoValue(a, b *object) bool {
+	pa, oka := bridgedGoIdentity(a)
+	pb, okb := bridgedGoIdentity(b)
+	return oka && okb && pa == pb && a.class == b.class
+}
+
 func builtinJSONStringifyWalk(ctx builtinJSONStringifyContext, key string, holder *object) (interface{}, bool) {
 	value := holder.get(key)
 
@@ -244,7 +279,7 @@ func builtinJSONStringifyWalk(ctx builtinJSONStringifyContext, key string, holde
 		objHolder := value.object()
 		if value := value.object(); nil != value {
 			for _, obj := range ctx.stack {
-				if objHolder == obj {
+				if objHolder == obj || sameBridgedGoValue(objHolder, obj) {
 					panic(ctx.call.runtime.panicTypeError("Converting circular structure to JSON"))
 				}
 			}
